@@ -76,7 +76,9 @@ def process_top(job):
         out['used'] = sorted(res.used)
         out['feas_checks'] = res.feas_checks
         out['undecided'] = sorted(set(res.undecided))
-        results = solve.discharge_all(res.obligations, timeout_ms, procs=inner_procs, seed=seed, both=(tier == 'thorough'))
+        # contract kwarg solver_procs=1: discharge in-process (forking a solver pool costs seconds per entry, which
+        # dominates for families of many small entries)
+        results = solve.discharge_all(res.obligations, timeout_ms, procs=getattr(top, 'extra', {}).get('solver_procs', inner_procs), seed=seed, both=(tier == 'thorough'))
         for ob, r in zip(res.obligations, results):
             e = out['names'].setdefault(ob.name, {'kind': ob.kind, 'n': 0, 'proved': 0, 'refuted': 0, 'unknown': 0, 'vacuous': 0, 'disagree': 0, 'time': 0.0, 'max_time': 0.0, 'backends': {}, 'abstracted': False, 'witnesses': [], 'details': [], 'expect_sat': ob.expect_sat, 'loc': ob.loc})
             e['n'] += 1
